@@ -59,3 +59,108 @@ parm!(probe_1line_narrow, {
     reach!("probe.end");
     std::mem::forget(got); std::mem::forget(db);
 });
+
+fn uw(text: bool) -> World {
+    let mut w = World::new(&[C0, U]);
+    w.def(C0, "fx1", 4);
+    let g = w.def(U, "g", 4);
+    w.defs[g].deps = vec!["fx1"];
+    w.test(U, 8, &["fx1"]);
+    w.tests[0].usefix = Some("fx1");
+    w.tests[0].indirect = Some("fx1");
+    w.pytestmark_u = Some("fx1");
+    w.with_text = text;
+    w
+}
+/// @harness id=probe_m1 props=PROBE unwind=20 mem=8 cap=200
+/// usages, no text
+#[cfg_attr(kani, kani::proof)]
+pub fn probe_m1() { let w = uw(false); let db = build(&w, WITH_USAGES); reach!("m1"); std::mem::forget(db); std::mem::forget(w); }
+/// @harness id=probe_m2 props=PROBE unwind=20 mem=8 cap=200
+/// text, no usages
+#[cfg_attr(kani, kani::proof)]
+pub fn probe_m2() { let w = uw(true); let db = build(&w, DEFS_ONLY); reach!("m2"); std::mem::forget(db); std::mem::forget(w); }
+/// @harness id=probe_m3 props=PROBE unwind=20 mem=8 cap=200
+/// only usages_of_file + manual map
+#[cfg_attr(kani, kani::proof)]
+pub fn probe_m3() {
+    let w = uw(false);
+    let us = usages_of_file(&w, U);
+    assert!(us.len() == 4);
+    assert!(us[0].name.len() == 3);
+    assert!(us[1].name == us[0].name);
+    reach!("m3"); std::mem::forget(us); std::mem::forget(w);
+}
+/// @harness id=probe_m4 props=PROBE unwind=20 mem=8 cap=200
+/// plain Vec growth
+#[cfg_attr(kani, kani::proof)]
+pub fn probe_m4() {
+    let mut v: Vec<(PathBuf, FixtureUsage)> = Vec::new();
+    for i in 0..5 { v.push((PathBuf::from(path(U)), mk_use(U, "fx1", 2 + i, 3, 6))); }
+    assert!(v[0].1.name.len() == 3);
+    assert!(v[4].1.name == v[0].1.name);
+    reach!("m4"); std::mem::forget(v);
+}
+/// @harness id=probe_m5 props=PROBE unwind=20 mem=8 cap=200
+/// shim entry().or_default().push()
+#[cfg_attr(kani, kani::proof)]
+pub fn probe_m5() {
+    let m: dashmap::DashMap<String, Vec<(PathBuf, FixtureUsage)>> = dashmap::DashMap::new();
+    for i in 0..5 { m.entry("fx1".to_string()).or_default().push((PathBuf::from(path(U)), mk_use(U, "fx1", 2 + i, 3, 6))); }
+    let g = m.get("fx1").unwrap();
+    assert!(g.len() == 5);
+    assert!(g[4].1.name == g[0].1.name);
+    reach!("m5");
+    std::mem::forget(g); std::mem::forget(m);
+}
+/// @harness id=probe_m6 props=PROBE unwind=20 mem=8 cap=200
+/// shim entry().or_default().push() with 2 keys
+#[cfg_attr(kani, kani::proof)]
+pub fn probe_m6() {
+    let m: dashmap::DashMap<String, Vec<(PathBuf, FixtureUsage)>> = dashmap::DashMap::new();
+    m.entry("fx1".to_string()).or_default().push((PathBuf::from(path(U)), mk_use(U, "fx1", 2, 3, 6)));
+    m.entry("g".to_string()).or_default().push((PathBuf::from(path(U)), mk_use(U, "g", 3, 3, 6)));
+    m.entry("fx1".to_string()).or_default().push((PathBuf::from(path(U)), mk_use(U, "fx1", 4, 3, 6)));
+    let g = m.get("fx1").unwrap();
+    assert!(g.len() == 2);
+    reach!("m6");
+    std::mem::forget(g); std::mem::forget(m);
+}
+/// @harness id=probe_m7 props=PROBE unwind=20 mem=8 cap=200
+/// get_mut / insert instead of entry
+#[cfg_attr(kani, kani::proof)]
+pub fn probe_m7() {
+    let m: dashmap::DashMap<String, Vec<(PathBuf, FixtureUsage)>> = dashmap::DashMap::new();
+    for i in 0..5 {
+        let item = (PathBuf::from(path(U)), mk_use(U, "fx1", 2 + i, 3, 6));
+        let had = if let Some(mut v) = m.get_mut("fx1") { v.push(item.clone()); true } else { false };
+        if !had { let mut v = Vec::with_capacity(8); v.push(item); m.insert("fx1".to_string(), v); }
+    }
+    let g = m.get("fx1").unwrap();
+    assert!(g.len() == 5);
+    assert!(g[4].1.name == g[0].1.name);
+    reach!("m7");
+    std::mem::forget(g); std::mem::forget(m);
+}
+/// @harness id=probe_m8 props=PROBE unwind=20 mem=8 cap=200
+/// entry twice only
+#[cfg_attr(kani, kani::proof)]
+pub fn probe_m8() {
+    let m: dashmap::DashMap<String, Vec<(PathBuf, FixtureUsage)>> = dashmap::DashMap::new();
+    for i in 0..2 { m.entry("fx1".to_string()).or_default().push((PathBuf::from(path(U)), mk_use(U, "fx1", 2 + i, 3, 6))); }
+    let g = m.get("fx1").unwrap();
+    assert!(g.len() == 2);
+    reach!("m8");
+    std::mem::forget(g); std::mem::forget(m);
+}
+/// @harness id=probe_m9 props=PROBE unwind=20 mem=8 cap=200
+/// entry once, u32 values
+#[cfg_attr(kani, kani::proof)]
+pub fn probe_m9() {
+    let m: dashmap::DashMap<String, Vec<u32>> = dashmap::DashMap::new();
+    for i in 0..3 { m.entry("fx1".to_string()).or_default().push(i); }
+    let g = m.get("fx1").unwrap();
+    assert!(g.len() == 3);
+    reach!("m9");
+    std::mem::forget(g); std::mem::forget(m);
+}
